@@ -255,7 +255,7 @@ func (x *X) applyContract(s *State, callee *ssa.Function, ct *Contract, args []V
 		if c.Assumed {
 			x.assumed[key+": trusted-ensures "+c.Name+" ("+c.Text+")"] = true
 		}
-		s.assume(x.evalClause(s, c, evalCtx{callee: callee, args: am, old: pre, results: res, post: true, assuming: true}))
+		s.assumeG(c.Group, x.evalClause(s, c, evalCtx{callee: callee, args: am, old: pre, results: res, post: true, assuming: true}))
 	}
 	switch len(res) {
 	case 0:
